@@ -144,7 +144,7 @@ theorem unsafe_ignores_time (hs : cfg.safe = false) (n : Int) (shipped : Option 
     fun c hc r e s => by simp [expiryGate, hc]
   have g1 := g cfg hs
   have g2 := g { cfg with now := n } hs
-  simp only [cycle, loadRoot, loadTimestamp, loadSnapshot, loadTargets, g1, g2, rootLoop_now, loadDelegs_now]
+  simp only [cycle, loadRoot, loadTimestamp, loadSnapshot, loadTargets, loadChildren, g1, g2, rootLoop_now, loadDelegs_now]
 
 theorem unsafe_read_ignores_time (hs : cfg.safe = false) (v : View) (st : St) :
     readGate cfg v st = (.ok (), st) := by simp [readGate, hs]
